@@ -130,6 +130,23 @@ def run_rows(acc, nt):
                 if float(m) != float(want) and ulps(float(m), want) > tol_ulp and abs(Decimal(float(m)) - want) > abs(want) * Decimal("1e-15"):
                     acc.violation(["value", canon, "differs-from-the-standardised-value", nt], case, str(want)[:30], repr(m))
             acc.outcome("row")
+        # the same value whatever numeric type the MAGNITUDE has (the default registry converts Fraction and Decimal
+        # magnitudes through branches of their own)
+        if nt == "float":
+            for mk, one in (("Fraction", Fraction(1)), ("Decimal", Decimal(1)), ("int", 1), ("Fraction(7, 3)", Fraction(7, 3))):
+                acc.ev()
+                acc.nt((nt, canon, "magnitude", mk))
+                o = call(lambda: ureg.Quantity(one, canon).to_root_units())
+                want = dec * scale_d * (Decimal(one.numerator) / Decimal(one.denominator) if isinstance(one, Fraction) else Decimal(one))
+                if o[0] != "ok":
+                    continue  # (refusals for some magnitude types are C03/C05 matter; a VALUE must be the standard one)
+                m = o[1].magnitude
+                try:
+                    mf = Decimal(m.numerator) / Decimal(m.denominator) if isinstance(m, Fraction) else Decimal(m)
+                except Exception:  # noqa
+                    continue
+                if abs(mf - want) > abs(want) * Decimal(max(reltol or 0, 1e-12)):
+                    acc.violation(["value", canon, "differs-from-the-standardised-value", "float-registry-" + mk.split("(")[0] + "-magnitude"], {"registry": nt, "row": name, "magnitude": mk, "source": src}, str(want)[:30], repr(m))
         if symbol is not None:
             acc.ev()
             o = call(lambda: ureg.get_symbol(name))
